@@ -1,5 +1,6 @@
 import Poulpy.Lemmas.FheUint
 import Poulpy.Lemmas.BlindSel
+import Poulpy.Lemmas.Retriever
 import Poulpy.Lemmas.Cbt
 import Poulpy.Props.C20
 import Mathlib.Tactic.Positivity
@@ -249,9 +250,101 @@ theorem retrieve_instances :
      | .ok w => w == 7
      | _ => false) = true := by decide
 
-/- FULL STATEMENT (not proved) for the one-shot form: for every `2 ≤ size`, `data.length ≤ 2^bit_size`, `idx` field
-`< data.length`: `retrieve … = ok data[idx]` (binary-counter invariant: accumulator `i` with `num = 1` holds the
-selection, by index bits `< i`, of the last complete aligned block of `2^i` elements). -/
+/- The general statement (every size, every data, every history) is `retriever_history` below. -/
+
+/-! ### The retriever object over its whole life (streaming `add`… `flush`, one-shot `retrieve`, reuse) -/
+
+open BlindSel in
+/-- **GLWEBlindRetriever, every history.**  The state machine of the object (`Retr`: accumulators with their `num`
+flags and stored values, element counter; `add` = assert + `add_core` + counter; `flush` = loop, `res ← last`,
+`reset`; `retrieve` = `reset` + stream).  For ANY sequence of streams run on one retriever that starts clean
+(`counter = 0`, all `num = 0`; stored values arbitrary — `alloc` and every `reset` give that), streamed or one-shot in
+any order, each stream at most the capacity `2^bit_size`: no call fails, an empty stream returns `zero`, and the value
+returned for stream `n` is its element at the position spelled by the selector bits (`idx < len`, any `idx`).  The
+invariant behind it (`Lemmas/Retriever.lean`): `flush` leaves the object `Clean` again, and from a clean state the
+binary counter works whatever the stale stored values are (`stream_good`: accumulator `i` with `num = 1` holds the
+answer for a pending complete block of `2^i` elements; the flush loop pushes partial blocks up; the top accumulator
+ends with the answer for the whole stream).  This supersedes `retrieve_instances` (general size and data). -/
+theorem retriever_history {V : Type} (cmn : Bool → V → V → V) (hcmn : ∀ b res a, cmn b res a = if b then a else res)
+    (bit : Nat → Bool) (zero : V) (r : Retr V) (hc : Clean r) (hne : r.accs ≠ [])
+    (h : List (Bool × List V)) (hcap : ∀ s ∈ h, s.2.length ≤ 2 ^ r.accs.length) :
+    ∃ vs, Retr.history cmn bit zero r h = .ok vs ∧ vs.length = h.length ∧
+      ∀ n (hn : n < h.length) (hv : n < vs.length),
+        (h[n].2 = [] → vs[n] = zero) ∧
+        ∀ idx (hi : idx < h[n].2.length), (∀ k < r.accs.length, bit k = idx.testBit k) → vs[n] = h[n].2[idx] := by
+  obtain ⟨vs, he, hall⟩ := history_good hcmn zero h r hc hne hcap
+  refine ⟨vs, he, hall.length_eq.symm, fun n hn hv => ?_⟩
+  have := List.Forall₂.get hall hn hv
+  simp only [List.get_eq_getElem] at this
+  exact ⟨this.1, fun idx hi hb => this.2 idx hi hb⟩
+
+open BlindSel in
+/-- … in the form "the element returned for index `idx` of the LAST stream of any history on `alloc(size)` is its
+`idx`-th element". -/
+theorem retriever_last_stream {V : Type} (cmn : Bool → V → V → V) (hcmn : ∀ b res a, cmn b res a = if b then a else res)
+    (bit : Nat → Bool) (zero init : V) (size : Nat)
+    (h : List (Bool × List V)) (oneShot : Bool) (d : List V)
+    (hcap : ∀ s ∈ h ++ [(oneShot, d)], s.2.length ≤ 2 ^ (Retr.alloc init size).accs.length)
+    (idx : Nat) (hi : idx < d.length) (hb : ∀ k < (Retr.alloc init size).accs.length, bit k = idx.testBit k) :
+    ∃ vs, Retr.history cmn bit zero (Retr.alloc init size) (h ++ [(oneShot, d)]) = .ok vs ∧ vs.getLast? = some d[idx] := by
+  obtain ⟨vs, he, hlen, hall⟩ := retriever_history cmn hcmn bit zero _ (alloc_clean init size) (alloc_ne init size) _ hcap
+  refine ⟨vs, he, ?_⟩
+  have hl : vs.length = h.length + 1 := by simpa using hlen
+  have hn : h.length < (h ++ [(oneShot, d)]).length := by simp
+  have := (hall h.length hn (by omega)).2 idx (by simpa using hi) hb
+  rw [List.getLast?_eq_getElem?, hl, Nat.add_sub_cancel, List.getElem?_eq_getElem (by omega), this]
+  simp
+
+/-- non-vacuity: three streams of lengths 2, 4, 1 on `alloc(4)` (streamed, streamed, one-shot), index 1 / 1 / 0 -/
+example : BlindSel.Retr.history (fun b (res a : Nat) => if b then a else res) (fun k => Nat.testBit 1 k) 0
+    (BlindSel.Retr.alloc 0 4) [(false, [10, 11]), (false, [20, 21, 22, 23]), (true, [31, 30])] = .ok [11, 21, 30] := by rfl
+
+/-- the hypothesis `Clean` is what `flush`'s `reset` provides and it is needed: with a `num` flag left set (a `flush`
+that only zeroes the counter) the next stream is answered from the stale value. -/
+theorem retriever_clean_needed_counterexample :
+    BlindSel.Retr.stream (fun b (res a : Nat) => if b then a else res) (fun _ => false) 0
+      { accs := [{ data := 99, num := 1 }, { data := 0, num := 0 }], counter := 0 } [5] =
+      .ok (99, { accs := [{ data := 99, num := 0 }, { data := 99, num := 0 }], counter := 0 }) := by rfl
+
+/-! ### `glwe_blind_rotation(_assign)`: the ping-pong between `res` and the scratch buffer -/
+
+open BlindSel in
+/-- **glwe_blind_rotation_assign / glwe_blind_rotation / the GGSW and scalar variants (same loop).**  `rot` = the
+rotation (`rot p (rot q x) = rot (q+p) x`, `rot 0 x = x`: C07), `cm` = `cmux_assign`.  For EVERY field width `mask`
+(odd and even, `1` included), every `bit_rsh`, `bit_lsh`, sign, and whatever the scratch buffer holds: after `k`
+iterations the current value sits in `res` iff `k` is even, and what the function leaves in `res` — after the final
+copy when the loop ended in the scratch buffer — is `X^{±(v·2^bit_lsh)}·input`, `v` = the `mask`-bit field of the
+selector at `bit_rsh` (`= (idx >>> bit_rsh) mod 2^mask` for selector bits `idx.testBit`).  The out-of-place form
+copies `a` first and is the same function of `a`. -/
+theorem blind_rotation_rotates {P : Type} (rot : Int → P → P) (cm : Bool → P → P → P)
+    (hadd : ∀ p q x, rot p (rot q x) = rot (q + p) x) (hzero : ∀ x, rot 0 x = x)
+    (hcm : ∀ b x y, cm b x y = if b then x else y)
+    (sign : Bool) (bit : Nat → Bool) (rsh mask lsh : Nat) (input tmp0 : P) :
+    (let st := (List.range mask).foldl (brStep rot cm sign bit rsh lsh) { res := input, tmp := tmp0, aIsRes := true }
+     st.aIsRes = decide (mask % 2 = 0)) ∧
+    blindRotationAssign rot cm sign bit rsh mask lsh input tmp0 = rot (signedAmt sign (fieldVal bit rsh mask) lsh) input ∧
+    blindRotation rot cm sign bit rsh mask lsh input tmp0 = rot (signedAmt sign (fieldVal bit rsh mask) lsh) input ∧
+    ∀ idx, fieldVal (fun k => Nat.testBit idx k) rsh mask = (idx >>> rsh) % 2 ^ mask := by
+  have h := brFold_inv rot cm hadd hzero hcm sign bit rsh lsh input tmp0 mask
+  have hA : blindRotationAssign rot cm sign bit rsh mask lsh input tmp0 = rot (signedAmt sign (fieldVal bit rsh mask) lsh) input := by
+    unfold blindRotationAssign
+    simp only at h ⊢
+    rw [← h.2]
+    cases (List.foldl (brStep rot cm sign bit rsh lsh) { res := input, tmp := tmp0, aIsRes := true } (List.range mask)).aIsRes <;> rfl
+  exact ⟨h.1, hA, hA, fun idx => fieldVal_testBit idx rsh mask⟩
+
+/-- non-vacuity (`P = ℤ`, `rot p x = x + p`): width 3 at `bit_rsh = 1` of `0b1010`, `bit_lsh = 2`, negative sign:
+field value 5, rotation by `-20`; the scratch content `77` does not matter -/
+example : BlindSel.blindRotationAssign (fun p (x : Int) => x + p) (fun b x y => if b then x else y) false
+    (fun k => Nat.testBit 10 k) 1 3 2 1000 77 = 980 := by decide
+
+/-- the final copy is needed exactly for odd widths: without it (`res` as the loop leaves it) width 1 returns the
+input unrotated. -/
+theorem blind_rotation_no_final_copy_counterexample :
+    ((List.range 1).foldl (BlindSel.brStep (fun p (x : Int) => x + p) (fun b x y => if b then x else y) true (fun _ => true) 0 0)
+      { res := 1000, tmp := 77, aIsRes := true }).res = 1000 ∧
+    BlindSel.blindRotationAssign (fun p (x : Int) => x + p) (fun b x y => if b then x else y) true (fun _ => true) 0 1 0 1000 77 = 1001 := by
+  decide
 
 /-! ### Circuit bootstrapping (constant mode) and integer preparation as compositions -/
 
